@@ -97,3 +97,14 @@ def replay_file(replay):
             raise vflib.Infra("no ndjson in " + replay)
         return os.path.join(replay, fs[0])
     return replay
+
+
+def kept_pass(v, tier):
+    """Real-driver pass shared by C03 and C17: every reply-bearing operation over each delivery path, the result kept while
+    1..4 further exchanges pass through the transport, then projected again (Trace_Api!CheckKept)."""
+    from .c05 import export
+    layouts, _ = export()
+    summ = harness_traces("c17net", tier, shards=2, extra_args=["-x", "layouts=" + layouts], timeout=1800)
+    validate(v, "Trace_Api", "Trace_Api.cfg", summ, lambda conj, rec: "%s:%s:%s" % (conj, rec["op"], rec["kept"]["path"]))
+    v.coverage["kept_results"] = summ["records"]
+    return summ
